@@ -115,6 +115,9 @@ func checkC13(c *Ctx) {
 		if fn := p.Func(pk, "", "Hash"); fn != nil {
 			RequireFacts(c, p, "C13.guard", fn, AcceptNilErr, nil, []Req{
 				{"expanded(msg,dst,count*L)", `^noerr ExpandMsgXmd\(p0,p1,\(\d+\*p2\)\)$`},
+				// count*L is the only thing ExpandMsgXmd sees: a product that wraps around looks like a
+				// small request, and the make([]Element, count) that follows panics (F71)
+				{"count*L-does-not-wrap", `^\(\(\d+\*p2\)/\d+\) == p2$|^p2 == \(\(\d+\*p2\)/\d+\)$|^p2 <= \d+$|^p2 < \d+$`},
 			})
 		} else {
 			c.Undecided("anchor %s.Hash not found", pk)
@@ -164,30 +167,50 @@ func checkC13(c *Ctx) {
 // checkRoute: ClearCofactor (and the isogeny before it) on every path to a normal return.
 func checkRoute(c *Ctx, p *Program, fn *ssa.Function, g string, hasCofactor, hasIsogeny bool) {
 	pkg, fk := relPkg(fnPkgPath(fn)), funcKey(fn)
-	var clears, isos, maps []*ssa.Call
-	for _, b := range fn.Blocks {
-		for _, in := range b.Instrs {
-			call, ok := in.(*ssa.Call)
-			if !ok {
-				continue
-			}
-			n := calleeOf(&call.Call).Name
-			switch {
-			case n == "ClearCofactor":
-				clears = append(clears, call)
-			case n == "G"+g+"Isogeny":
-				isos = append(isos, call)
-			case strings.HasPrefix(n, "MapToCurve"):
-				maps = append(maps, call)
-			case n == "MapToG"+g:
-				// delegation to the map that already clears the cofactor
-				clears = append(clears, call)
-				isos = append(isos, call)
+	// on the inlined view: an unexported helper that maps and clears (hashToG1Jac) counts as the
+	// code it contains
+	v := NewIView(fn)
+	var clears, isos, maps []ivInstr
+	deleg := map[ssa.Instruction]bool{} // helper calls standing for the clearing they contain
+	for _, x := range v.Instrs() {
+		call, ok := x.in.(*ssa.Call)
+		if !ok {
+			continue
+		}
+		n := calleeOf(&call.Call).Name
+		switch {
+		case n == "ClearCofactor":
+			clears = append(clears, x)
+		case n == "G"+g+"Isogeny":
+			isos = append(isos, x)
+		case strings.HasPrefix(n, "MapToCurve"):
+			maps = append(maps, x)
+		case n == "MapToG"+g:
+			// delegation to the map that already clears the cofactor
+			clears = append(clears, x)
+			isos = append(isos, x)
+		default:
+			// delegation to a helper of the package every successful return of which has passed
+			// through ClearCofactor (hashToG1Jac): the call stands for the clearing; the helper's
+			// own map / isogeny calls are seen through the inlined view
+			if cal := call.Call.StaticCallee(); cal != nil && x.fr == v.root && cal.Pkg == fn.Pkg && len(cal.Blocks) > 0 && helperClears(cal, 0) {
+				clears = append(clears, x)
+				deleg[x.in] = true
 			}
 		}
 	}
+	instrDominates := func(a, b ivInstr) bool { return v.Dominates(a, b) }
 	// accepting returns
-	acc, _ := acceptReturns(fn, autoAccept(fn))
+	accRets, _ := acceptReturns(fn, autoAccept(fn))
+	type accT struct{ ret ivInstr }
+	var acc []accT
+	for _, r := range v.rootReturns() {
+		for _, a := range accRets {
+			if ssa.Instruction(a.ret) == r.in {
+				acc = append(acc, accT{r})
+			}
+		}
+	}
 	if hasCofactor {
 		ok := len(acc) > 0
 		for _, a := range acc {
@@ -225,6 +248,9 @@ func checkRoute(c *Ctx, p *Program, fn *ssa.Function, g string, hasCofactor, has
 		}
 		for _, i := range isos {
 			for _, cl := range clears {
+				if deleg[cl.in] {
+					continue // the helper's own calls are ordered inside its frame
+				}
 				if cl != i && instrDominates(cl, i) {
 					ok = false
 					msg = fk + ": ClearCofactor is applied before the isogeny"
@@ -233,4 +259,42 @@ func checkRoute(c *Ctx, p *Program, fn *ssa.Function, g string, hasCofactor, has
 		}
 		c.Ob("C13.route", pkg, fk, "isogeny-after-map-before-cofactor", p.Pos(fn.Pos()), ok, msg)
 	}
+}
+
+// helperClears: every accepting return of fn is dominated by a ClearCofactor call (or by a call of
+// a helper of the same package for which this holds).
+func helperClears(fn *ssa.Function, depth int) bool {
+	if depth > 3 || len(fn.Blocks) == 0 {
+		return false
+	}
+	var clears []*ssa.Call
+	for _, b := range fn.Blocks {
+		for _, in := range b.Instrs {
+			call, ok := in.(*ssa.Call)
+			if !ok {
+				continue
+			}
+			if calleeOf(&call.Call).Name == "ClearCofactor" {
+				clears = append(clears, call)
+			} else if cal := call.Call.StaticCallee(); cal != nil && cal != fn && cal.Pkg == fn.Pkg && helperClears(cal, depth+1) {
+				clears = append(clears, call)
+			}
+		}
+	}
+	acc, _ := acceptReturns(fn, autoAccept(fn))
+	if len(acc) == 0 || len(clears) == 0 {
+		return false
+	}
+	for _, a := range acc {
+		dom := false
+		for _, cl := range clears {
+			if instrDominates(cl, a.ret) {
+				dom = true
+			}
+		}
+		if !dom {
+			return false
+		}
+	}
+	return true
 }
